@@ -311,6 +311,51 @@ def judgePhaseObjectOrder (o : OSet) (pre : Sys) (out : StepOut) : Option String
             | none => pure ()
   return none
 
+/-- name of the phase object a `C` / `P` / `X` event of an ObjectSet pass is about. -/
+def phaseEventName (pe : String) : String := (((pe.splitOn " ").getD 1 "").splitOn "/").getLastD ""
+
+/-- spec patches of phase object `nm` that went through in this pass (`P <kind>/<nm> ok`). -/
+def specPatchesOf (out : StepOut) (nm : String) : Nat :=
+  (out.phaseEvents.filter fun pe => pe.startsWith "P " && phaseEventName pe == nm && (pe.splitOn " ").getD 2 "" == "ok").length
+
+/-- C06, delegated phases.  "Available=True is written for generation G only by a reconcile pass …
+in which every object of every phase existed and passed all probes selecting it (directly, or AS
+REPORTED BY A DELEGATED PHASE)".  What a delegated phase reports is the Available condition of its
+phase object, and a report is a report about the state the pass looked at only if it was made for
+the phase object as it is AT THE TIME OF THE PASS: `observedGeneration` of the condition equals
+`metadata.generation` of the phase object then.  That generation is the one of the pre-state plus
+one for every spec patch of the phase object that went through in this very pass — the ObjectSet
+controller patches `spec.paused`, the API server answers every spec change with a new generation
+and leaves the status as it was — both read off the IMPLEMENTATION's trace and the pre-state.  A
+phase object that the pass had to create (or that does not exist) has reported nothing.
+
+So an ok status update of the pass that says Available=True needs, for every delegated phase:
+the phase object existed before the pass and its Available condition is True with
+observedGeneration = generation(pre-state) + #spec patches of this pass.
+(Third-party writes of a phase object's status are outside the property; third-party operations
+scheduled INSIDE a pass only touch managed objects and the ObjectSet, never a phase object, so the
+clause needs no `quiet`.) -/
+def judgeDelegatedReports (o : OSet) (pre : Sys) (out : StepOut) : Option String := Id.run do
+  if !(out.setEvents.any fun se => sOk se && sName se == o.name && hasCond (sConds se) "Available" "True") then return none
+  for ph in o.phases do
+    if ph.cls != "" then
+      let nm := o.name ++ "-" ++ ph.name
+      if out.phaseEvents.any (fun pe => createdPhase pe == some nm) then
+        return some s!"bad available-true-without-delegated-report {nm} (the phase object was created in this pass: nothing has reported on it)"
+      match pre.w.phases nm with
+      | none => return some s!"bad available-true-without-delegated-report {nm} (no phase object before the pass, none created)"
+      | some po =>
+        let patches := specPatchesOf out nm
+        let genNow := po.gen + patches
+        match findCond po.conds "Available" with
+        | none => return some s!"bad available-true-without-delegated-report {nm} (the phase object carries no Available condition; generation {genNow})"
+        | some c =>
+          if c.status != "True" then
+            return some s!"bad available-true-with-failing-delegated-report {nm} (its Available condition says {c.status}/{c.reason} for generation {c.obsGen})"
+          if c.obsGen != genNow then
+            return some s!"bad available-true-on-stale-delegated-report {nm} (the phase object's Available=True was reported for its generation {c.obsGen}; at the time of the pass its generation is {genNow} = {po.gen} before the pass + {patches} spec patch(es) by this pass)"
+  return none
+
 def judge (which : Which) (scn : SysCommon.Scn) (cfg : Cfg) (st : JStep) (pre : Sys) (out : StepOut) : Option String := Id.run do
   let some o := (pre.sets st.set).map (fullSpec scn) | return none
   let fs := factsOf cfg o pre
@@ -550,6 +595,13 @@ def judge (which : Which) (scn : SysCommon.Scn) (cfg : Cfg) (st : JStep) (pre : 
           return some s!"bad succeeded-withdrawn-from-stored-object (write {k} on the ObjectSet stores conds=[{",".intercalate (cs.map fun c => c.1 ++ "=" ++ c.2.1)}])"
         if ahead.any (·.value == "Archived") then
           return some s!"bad stored-status-overwritten-after-archival-completed (write {k} on the ObjectSet stores conds=[{",".intercalate (cs.map fun c => c.1 ++ "=" ++ c.2.1)}] co=[{",".intercalate (sCo se)}])"
+    -- "… (directly, or as reported by a delegated phase)": a pass that derives its status from the
+    -- phases says Available=True only on reports made for the phase objects as they are at the time
+    -- of the pass (teardown / archival passes carry recorded conditions over: no claim of this pass)
+    if !tearing then
+      match judgeDelegatedReports o pre out with
+      | some b => return some b
+      | none => pure ()
     for se in out.setEvents do
       if sOk se then
         let cs := sConds se
